@@ -26,8 +26,8 @@ AllKinds == CmpOps \cup {"BOOL", "EXC_MATCH", "IN_PRESENCE"}
 (*   py      outcome of Python's own operator used as a branch condition: "T","F","Raise" *)
 (*   dT, dF  distances recorded for this evaluation                                      *)
 (*   raised  the tracer callback raised                                                  *)
-WellFormed(e) ==
-  e.py \in {"T", "F"} =>
+WellFormed(e) ==                                 \* "each RECORDED evaluation yields ..."
+  (e.py \in {"T", "F"} /\ e.cnt > 0) =>
     /\ e.dT \in Dist /\ e.dF \in Dist           \* non-negative, not NaN, recorded
     /\ (e.dT = "Z") # (e.dF = "Z")              \* exactly one is zero
     /\ (e.dT = "Z") = (e.py = "T")              \* the zero one is the outcome taken
